@@ -144,7 +144,7 @@ def run(ctx):
         spec_meta.append((i, "body", c["bc"], body, t.get("bh", b"")))
         # (the code lower-cases the names when it collects the fields, before the relaxed pass)
         ser = b"".join(x.partition(b":")[0].lower() + b":" + x.partition(b":")[2] for x in fields if not x.lower().startswith(b"dkim-signature:"))
-        spec_lines += ["dkim.model_hrelax\t" + hx(ser)] + ["spec.dkim_field\t" + hx(x) for x in fields if not x.lower().startswith(b"dkim-signature:")]
+        spec_lines += ["dkim.certify\t" + hx(ser), "dkim.model_hrelax\t" + hx(ser)] + ["spec.dkim_field\t" + hx(x) for x in fields if not x.lower().startswith(b"dkim-signature:")]
         spec_meta.append((i, "hdr", len([x for x in fields if not x.lower().startswith(b"dkim-signature:")]), ser, None))
         if sig:
             val = sig[0].partition(b":")[2]
@@ -152,6 +152,7 @@ def run(ctx):
             spec_meta.append((i, "delb", None, val, t.get("b", b"")))
     out = run_model(spec_lines)
     pos = 0
+    ncert = {"blocks": 0, "certified": 0, "uncertified_samples": []}
     for (i, kind, a, b, extra) in spec_meta:
         if kind == "body":
             mb, sb_stored, sb_wire = unhx(out[pos]), unhx(out[pos + 1]), unhx(out[pos + 2]); pos += 3
@@ -164,6 +165,10 @@ def run(ctx):
             if re.sub(rb"\s+", b"", extra) != bh:
                 cbad.append((i, "bh= in the implementation's signature is not the hash of the model's canonical body"))
         elif kind == "hdr":
+            # C13_certified_header_blocks applies to this block when the extracted certificate says 1
+            ncert["blocks"] += 1; ncert["certified"] += out[pos] == "1"; pos += 1
+            if out[pos - 1] != "1" and len(ncert["uncertified_samples"]) < 3:
+                ncert["uncertified_samples"].append(b.decode("latin-1")[:200])
             mh = unhx(out[pos]); sf = b"".join(unhx(x) for x in out[pos + 1:pos + 1 + a]); pos += 1 + a
             if mh != sf:
                 cbad.append((i, "model relaxed header canonicalization differs from the RFC's, field by field: %r vs %r" % (mh[:120], sf[:120])))
@@ -201,6 +206,7 @@ def run(ctx):
             cbad.append((-1, "exhaustive sweep (%s): model %s, RFC definition %s on %r" % (what, sw[2 * k][:60], sw[2 * k + 1][:60], x)))
     ctx.cov["correspondence"]["canonicalization_sweep_model_vs_rfc"] = {"cases": nsw, "alphabet": "bodies over {SP,TAB,CR,LF,a}^<=%d + CRLF x {simple,relaxed}; fields n: over {SP,TAB,a,CRLF SP,CRLF TAB,:}^<=%d" % (L, 5 if ctx.tier == "quick" else 7)}
     ctx.cov["oracle"]["rfc6376_verifier_on_impl_output"] = {"messages_verified_stored_and_transmitted": stats["verified"], "skipped_or_refused": stats["skipped"], "failures": len(obad)}
+    ctx.cov["theorem_applicability"] = {"what": "signed header blocks of the generated cases for which the extracted certificate (Proofs/DkimShapeCert.v certify) holds, i.e. to which C13_certified_header_blocks applies; the others are still compared field by field", **ncert}
     ctx.cov["correspondence"]["dkim_model_spec_impl"] = {"cases": len(cases), "disagreements": len(cbad)}
     ctx.cov["rule"] = ("{rsa-2048, ed25519} x {simple, relaxed}^2 x 9 signed-header lists (absent, repeated, any letter case, custom fields, MIME fields) x subjects that fold / carry blanks, tabs, encoded-words, tag look-alikes x custom "
                        "field values up to 1.5 KB x selector/domain strings x bodies: empty, blank-line-only, white-space-only, trailing blanks, no final CRLF, bare CR/LF, 1200-octet lines, random white-space soup, MIME trees (C11's generator); "
